@@ -396,3 +396,70 @@ func ExpandEnv(s string) string                     { return os.ExpandEnv(s) }
 
 // ExitCalled is the panic value of a virtual os.Exit.
 type ExitCalled struct{ Code int }
+
+// ---- less common parts of package os (kept so that changed code still builds) ----
+
+var (
+	ErrDeadlineExceeded = os.ErrDeadlineExceeded
+	ErrNoDeadline       = os.ErrNoDeadline
+	ErrProcessDone      = os.ErrProcessDone
+)
+
+type (
+	LinkError    = os.LinkError
+	SyscallError = os.SyscallError
+	Process      = os.Process
+	ProcAttr     = os.ProcAttr
+)
+
+func Truncate(name string, size int64) error {
+	if !mutate("truncate " + name) {
+		return errFrozen
+	}
+	return os.Truncate(name, size)
+}
+func Link(a, b string) error                        { return os.Link(a, b) }
+func SameFile(a, b FileInfo) bool                   { return os.SameFile(a, b) }
+func Chown(n string, u, g int) error                { return os.Chown(n, u, g) }
+func Chtimes(n string, a, m time.Time) error        { return os.Chtimes(n, a, m) }
+func Getppid() int                                  { return os.Getppid() }
+func Getgid() int                                   { return os.Getgid() }
+func Geteuid() int                                  { return os.Geteuid() }
+func Unsetenv(k string) error                       { return os.Unsetenv(k) }
+func UserCacheDir() (string, error)                 { return os.UserCacheDir() }
+func UserConfigDir() (string, error)                { return os.UserConfigDir() }
+func MkdirTemp(dir, pattern string) (string, error) { return os.MkdirTemp(dir, pattern) }
+func Getpagesize() int                              { return os.Getpagesize() }
+func NewSyscallError(s string, err error) error     { return os.NewSyscallError(s, err) }
+func IsTimeout(err error) bool                      { return os.IsTimeout(err) }
+func DirFS(dir string) fs.FS                        { return os.DirFS(dir) }
+
+func CreateTemp(dir, pattern string) (*File, error) {
+	f, err := os.CreateTemp(dir, pattern)
+	if err != nil {
+		return nil, err
+	}
+	return track(f, f.Name()), nil
+}
+
+func (f *File) WriteAt(p []byte, off int64) (int, error) {
+	if !mutate("writeat " + f.name) {
+		return 0, errFrozen
+	}
+	return f.f.WriteAt(p, off)
+}
+func (f *File) ReadFrom(r io.Reader) (int64, error) {
+	b, err := io.ReadAll(r)
+	if err != nil {
+		return 0, err
+	}
+	n, err := f.Write(b)
+	return int64(n), err
+}
+func (f *File) Readdir(n int) ([]FileInfo, error)    { return f.f.Readdir(n) }
+func (f *File) ReadDir(n int) ([]DirEntry, error)    { return f.f.ReadDir(n) }
+func (f *File) Readdirnames(n int) ([]string, error) { return f.f.Readdirnames(n) }
+func (f *File) SetDeadline(t time.Time) error        { return f.f.SetDeadline(t) }
+func (f *File) SetReadDeadline(t time.Time) error    { return f.f.SetReadDeadline(t) }
+func (f *File) SetWriteDeadline(t time.Time) error   { return f.f.SetWriteDeadline(t) }
+func (f *File) Chown(u, g int) error                 { return f.f.Chown(u, g) }
